@@ -85,6 +85,25 @@ func (s *Sched) spawn(name string, f func()) *G {
 
 // pick the next goroutine to run: lowest-id runnable; else a settling one.
 func (s *Sched) pick() *G {
+	if s.r.schedBudget > 0 && !s.r.allSchedules {
+		// delay-bounded exploration: the default is the canonical choice (first runnable goroutine);
+		// every other choice spends one unit of the budget set by vf.Deviations
+		var run []*G
+		for _, g := range s.gs {
+			if g.state == gRunnable {
+				run = append(run, g)
+			}
+		}
+		if len(run) > 1 {
+			c := s.r.chooseN(len(run))
+			if c != 0 {
+				s.r.schedBudget--
+				s.r.schedForks++
+				s.r.selectForks++
+			}
+			return run[c]
+		}
+	}
 	if s.r.allSchedules {
 		// non-preemptive schedule exploration: fork over which runnable goroutine continues
 		var run []*G
